@@ -20,7 +20,33 @@ def simple(suite, ops=None, features=(), extra=()):
     return lambda tier: [{"suite": suite, "ops": ops, "features": list(features), "extra": list(extra)}]
 
 
+LIKELY_RULE = ("suite `likely` (harness built with the likelysubtags feature and the cfg(unic_locale_verif) hook): every row of the ten compiled "
+               "tables; every table key as a triple with 8 perturbations each (a component dropped / replaced by an unknown / by a random CLDR subtag); "
+               "random triples over the CLDR subtag universe + unknown representatives; method forms with variants attached; the 710 layout locales and "
+               "language x script / language x region products for character_direction. non-trivial = distinct (operation, input) pairs whose model answer is not an error")
+
 PROPS = {
+    "C06": {
+        "runs": simple("likely", ops=["maximize", "li_maximize"], features=["likely"]),
+        "rule": LIKELY_RULE,
+    },
+    "C07": {
+        "runs": simple("likely", ops=["maximize", "li_maximize"], features=["likely"]),
+        "rule": LIKELY_RULE + "; the C07 laws are also evaluated on the library alone inside the harness (LAWFAIL answers)",
+    },
+    "C08": {
+        "runs": simple("likely", ops=["minimize", "li_minimize"], features=["likely"]),
+        "rule": LIKELY_RULE + "; the C08 laws are also evaluated on the library alone inside the harness (LAWFAIL answers)",
+    },
+    "C14": {
+        "runs": lambda tier: [{"suite": "likely", "ops": ["direction_likely"], "features": ["likely"]},
+                              {"suite": "likely", "ops": ["direction_plain"], "features": []}],
+        "rule": LIKELY_RULE + "; run twice: with and without the likelysubtags feature",
+    },
+    "C18": {
+        "runs": simple("likely", ops=["table_row", "table_len", "cldr_version", "maximize"], features=["likely"]),
+        "rule": LIKELY_RULE,
+    },
     "C15": {
         "runs": simple("subtags", ops=["lang", "script", "region", "variant"]),
         "rule": "G1: every byte string of length 0-2 (quick) / 0-3 (thorough), boundary-class strings of length 3-9, "
@@ -29,3 +55,6 @@ PROPS = {
                 "non-trivial = distinct (operation, input) pairs that the model accepts",
     },
 }
+
+HOOK_COMMITS = ["7d046e5"]
+NOT_CLAIMED = {}
